@@ -219,3 +219,6 @@ Definition run_chk_C05 (x : sx) : sx :=
       end
   | _ => A 0
   end.
+
+(* DISPATCH: 501 => run_flatten *)
+(* DISPATCH: 502 => run_chk_C05 *)
